@@ -41,7 +41,7 @@ structure DroppedColumnData where
 deriving Inhabited
 
 /-- a column of a row-decoding schema that includes dropped columns: (name, typid, attlen, attnum, attalign byte) -/
-structure SchemaCol where
+structure DroppedSchemaCol where
   name : Bytes
   typid : Int
   len : Int
@@ -52,40 +52,40 @@ deriving Repr, DecidableEq, Inhabited
 /-! ## PostgreSQL's side -/
 
 /-- ASCII digit of d < 10 -/
-def digitByte : Nat → UInt8
+def drDigitByte : Nat → UInt8
   | 0 => 48 | 1 => 49 | 2 => 50 | 3 => 51 | 4 => 52 | 5 => 53 | 6 => 54 | 7 => 55 | 8 => 56 | 9 => 57 | _ => 48
 
-def decNatAux : Nat → Nat → Bytes → Bytes
+def drDecNatAux : Nat → Nat → Bytes → Bytes
   | 0, _, acc => acc
-  | fuel + 1, n, acc => if n < 10 then digitByte n :: acc else decNatAux fuel (n / 10) (digitByte (n % 10) :: acc)
+  | fuel + 1, n, acc => if n < 10 then drDigitByte n :: acc else drDecNatAux fuel (n / 10) (drDigitByte (n % 10) :: acc)
 
 /-- decimal text of a natural number (C `%d` / `%u`), as bytes -/
-def decNat (n : Nat) : Bytes := decNatAux (n + 1) n []
+def drDecNat (n : Nat) : Bytes := drDecNatAux (n + 1) n []
 
 /-- decimal text of an integer (C / Go `%d`) -/
-def decInt (n : Int) : Bytes := if n < 0 then 45 :: decNat (-n).toNat else decNat n.toNat
+def drDecInt (n : Int) : Bytes := if n < 0 then 45 :: drDecNat (-n).toNat else drDecNat n.toNat
 
 /-- `........` -/
-def dots8 : Bytes := [46, 46, 46, 46, 46, 46, 46, 46]
+def drDots8 : Bytes := [46, 46, 46, 46, 46, 46, 46, 46]
 /-- `pg.dropped.` -/
 def pgDroppedLit : Bytes := [112, 103, 46, 100, 114, 111, 112, 112, 101, 100, 46]
 /-- `dropped_` -/
 def droppedPrefix : Bytes := [100, 114, 111, 112, 112, 101, 100, 95]
 
 /-- the name RemoveAttributeById gives a dropped column: `snprintf("........pg.dropped.%d........", attnum)` -/
-def pgDroppedName (attnum : Int) : Bytes := dots8 ++ pgDroppedLit ++ decInt attnum ++ dots8
+def pgDroppedName (attnum : Int) : Bytes := drDots8 ++ pgDroppedLit ++ drDecInt attnum ++ drDots8
 
 /-- attstorage: 'p' plain, 'e' external, 'm' main, 'x' extended -/
-def storageOK (s : Nat) : Prop := s = 112 ∨ s = 101 ∨ s = 109 ∨ s = 120
-instance (s : Nat) : Decidable (storageOK s) := by unfold storageOK; infer_instance
+def drStorageOK (s : Nat) : Prop := s = 112 ∨ s = 101 ∨ s = 109 ∨ s = 120
+instance (s : Nat) : Decidable (drStorageOK s) := by unfold drStorageOK; infer_instance
 
 /-- the name under which a tool that recovers dropped columns presents attribute `a` in a row -/
-def recoveredName (a : AttrRow) : Bytes :=
-  if a.dropped then droppedPrefix ++ decInt a.num else a.name
+def drRecoveredName (a : AttrRow) : Bytes :=
+  if a.dropped then droppedPrefix ++ drDecInt a.num else a.name
 
 /-- what RemoveAttributeById guarantees about a dropped attribute's row, and what every attribute row satisfies -/
 def AttrRow.DroppedWF (a : AttrRow) : Prop :=
-  storageOK a.storage ∧
+  drStorageOK a.storage ∧
   (a.dropped = true → a.typid = 0 ∧ a.notnull = false ∧ 0 < a.num ∧ a.name = pgDroppedName a.num) ∧
   (a.dropped = false → ¬ droppedPrefix.isPrefixOf a.name)
 instance (a : AttrRow) : Decidable a.DroppedWF := by unfold AttrRow.DroppedWF; infer_instance
@@ -101,7 +101,7 @@ instance (c : Cluster) : Decidable c.DroppedWF := by unfold Cluster.DroppedWF; i
 
 /-- name of relation `relid`: the live pg_class row with that oid.  (A relation without a file of its own — a
 partitioned table — is left unnamed: reporting its name is not among the things this area states.) -/
-def relNameOf (d : DbContent) (relid : Nat) : Bytes :=
+def drRelNameOf (d : DbContent) (relid : Nat) : Bytes :=
   match d.cls.live.find? (fun r => r.oid == relid && r.filenode != 0) with
   | some r => r.name
   | none => []
@@ -109,25 +109,25 @@ def relNameOf (d : DbContent) (relid : Nat) : Bytes :=
 /-- one dropped attribute as it must be reported: relation, attnum, PostgreSQL's placeholder name, and the type
 length / alignment / by-value flag the old type had (type oid 0: the type itself is gone) -/
 def droppedInfo (d : DbContent) (a : AttrRow) : DroppedColumnInfo :=
-  { relOID := a.relid, tableName := relNameOf d a.relid, attNum := a.num,
-    originalName := droppedPrefix ++ decInt a.num, droppedName := a.name,
+  { relOID := a.relid, tableName := drRelNameOf d a.relid, attNum := a.num,
+    originalName := droppedPrefix ++ drDecInt a.num, droppedName := a.name,
     typeOID := a.typid, typeName := (typeName a.typid).getD [], attLen := a.len,
     attAlign := alignCh a.align, attByVal := a.byval }
 
 def droppedLE (a b : DroppedColumnInfo) : Bool :=
   if a.relOID != b.relOID then a.relOID < b.relOID else a.attNum ≤ b.attNum
 
-def insertDropped (a : DroppedColumnInfo) : List DroppedColumnInfo → List DroppedColumnInfo
+def drInsertDropped (a : DroppedColumnInfo) : List DroppedColumnInfo → List DroppedColumnInfo
   | [] => [a]
-  | b :: bs => if droppedLE a b then a :: b :: bs else b :: insertDropped a bs
+  | b :: bs => if droppedLE a b then a :: b :: bs else b :: drInsertDropped a bs
 
 /-- by relation oid, then attnum -/
-def sortDropped (l : List DroppedColumnInfo) : List DroppedColumnInfo := l.foldr insertDropped []
+def drSortDropped (l : List DroppedColumnInfo) : List DroppedColumnInfo := l.foldr drInsertDropped []
 
 /-- the dropped columns PostgreSQL has in database `d`: the live pg_attribute rows with attisdropped and
 attnum > 0 (dead row versions — the column's row before the drop — ignored), each once, by relation and attnum -/
 def expectedDropped (d : DbContent) : List DroppedColumnInfo :=
-  sortDropped ((d.att.live.filter fun a => a.dropped && a.num > 0).map (droppedInfo d))
+  drSortDropped ((d.att.live.filter fun a => a.dropped && a.num > 0).map (droppedInfo d))
 
 /-- FindDroppedColumns(dir, name): `none` = an error (no such database / no catalog files) -/
 def expectedFind (c : Cluster) (dbName : Bytes) : Option DroppedColumnsResult :=
@@ -148,35 +148,35 @@ def expectedScan (c : Cluster) : List DroppedColumnsResult :=
 
 /-- the relation a table name denotes: `some none` = no such relation, `none` = the spec is silent (several
 relations with storage carry the name — PostgreSQL names are unique per schema only) -/
-def lookupRel (d : DbContent) (tableName : Bytes) : Option (Option ClassRow) :=
+def drLookupRel (d : DbContent) (tableName : Bytes) : Option (Option ClassRow) :=
   match d.cls.live.filter (fun r => r.filenode != 0 && r.name == tableName) with
   | [] => some none
   | [r] => some (some r)
   | _ => none
 
-def schemaCol (a : AttrRow) : SchemaCol :=
-  ⟨recoveredName a, a.typid, a.len, a.num, alignCh a.align⟩
+def droppedSchemaCol (a : AttrRow) : DroppedSchemaCol :=
+  ⟨drRecoveredName a, a.typid, a.len, a.num, alignCh a.align⟩
 
 /-- GetDroppedColumnSchema: all user attributes of the relation in attnum order, dropped ones included (under
 `dropped_<attnum>`), each with the length and alignment needed to walk a stored row.
 Outer `none` = spec silent, inner `none` = error. -/
-def expectedSchema (c : Cluster) (dbName tableName : Bytes) : Option (Option (List SchemaCol)) :=
+def expectedSchema (c : Cluster) (dbName tableName : Bytes) : Option (Option (List DroppedSchemaCol)) :=
   match c.dbs.live.find? (fun db => db.name == dbName) with
   | none => some none
   | some db =>
     match c.content.lookup db.oid with
     | none => some none
     | some d =>
-      match lookupRel d tableName with
+      match drLookupRel d tableName with
       | none => none
       | some none => some none
-      | some (some r) => some (some ((userAttrs d.att r.oid).map schemaCol))
+      | some (some r) => some (some ((userAttrs d.att r.oid).map droppedSchemaCol))
 
-def recoveredCol (a : AttrRow) : Col := ⟨recoveredName a, a.typid, a.len, a.align⟩
+def drRecoveredCol (a : AttrRow) : Col := ⟨drRecoveredName a, a.typid, a.len, a.align⟩
 
 /-- the attribute as RecoverDroppedColumnData describes it -/
-def attrInfo (a : AttrRow) : DroppedColumnInfo :=
-  { relOID := a.relid, tableName := [], attNum := a.num, originalName := recoveredName a, droppedName := a.name,
+def drAttrInfo (a : AttrRow) : DroppedColumnInfo :=
+  { relOID := a.relid, tableName := [], attNum := a.num, originalName := drRecoveredName a, droppedName := a.name,
     typeOID := a.typid, typeName := (typeName a.typid).getD [], attLen := a.len,
     attAlign := alignCh a.align, attByVal := a.byval }
 
@@ -192,7 +192,7 @@ def expectedRecover (val : Val) (c : Cluster) (dbName tableName : Bytes) (attNum
     match c.content.lookup db.oid with
     | none => some none
     | some d =>
-      match lookupRel d tableName with
+      match drLookupRel d tableName with
       | none => none
       | some none => some none
       | some (some r) =>
@@ -206,9 +206,9 @@ def expectedRecover (val : Val) (c : Cluster) (dbName tableName : Bytes) (attNum
             | some pages =>
               if !a.dropped then none
               else
-                let cols := attrs.map recoveredCol
+                let cols := attrs.map drRecoveredCol
                 let rows := (liveRows pages (attrs.map attrCol)).map (rowOf val cols)
-                let key := droppedPrefix ++ decInt attNum
-                some (some { column := attrInfo a, values := rows.map fun row => (row.lookup key).getD .nil, rows })
+                let key := droppedPrefix ++ drDecInt attNum
+                some (some { column := drAttrInfo a, values := rows.map fun row => (row.lookup key).getD .nil, rows })
 
 end PgVerif.Spec
